@@ -214,6 +214,9 @@ def from_alg(tx, n, skip=()):
     for c in tx.pre.pc:
         if not isinstance(c, alg.Cond) or c.kind != 'icmp':
             raise Unsupported('the loop is reached under %r' % (c,))
+        fs = sp.sympify(c.a).free_symbols | sp.sympify(c.b).free_symbols
+        if fs and all(str(x).startswith('&') for x in fs):
+            continue      # a test of a pointer argument against null says nothing about the count
         pre.append((c.rel(), c.a, c.b, str(c.pred).startswith('u')))
     return Core(n, variables, pre), acc
 
